@@ -28,7 +28,7 @@ structure SweepInv (g : Graph ℚ) (a : ℚ) (F0 : ℕ → ℚ) (st : DState ℚ
 
 theorem sweep_step {g : Graph ℚ} (hg : g.Nonneg) (hr : g.InRange) (hP : SubStoch g.n (entry g)) {a : ℚ}
     (ha : 0 ≤ a) (ha1 : a ≤ 1) {F0 : ℕ → ℚ} (hF0 : ∀ i, 0 ≤ F0 i) {st : DState ℚ}
-    (hlS : st.scores.length = g.n) (hlF : st.fluid.length = g.n) (hnF : ∀ i, 0 ≤ st.fluid.getD i 0)
+    (_hlS : st.scores.length = g.n) (hlF : st.fluid.length = g.n) (hnF : ∀ i, 0 ≤ st.fluid.getD i 0)
     {k : ℕ} (hk : k < g.n) (h : SweepInv g a F0 st k) :
     SweepInv g a F0 (diterNode g a (1 - a) st k) (k + 1) := by
   have hsplit : ∑ i ∈ Ico k g.n, F0 i = F0 k + ∑ i ∈ Ico (k + 1) g.n, F0 i := sum_eq_sum_Ico_succ_bot hk F0
@@ -159,5 +159,196 @@ theorem diterLoop_budget {g : Graph ℚ} (hg : g.Nonneg) (hr : g.InRange) (hs : 
         · have : k = 0 := by omega
           subst this
           simpa [diterLoop] using hc
+
+/-! ### the data handed to the kernel: `normalize(adjacency)` -/
+
+theorem normalized_inRange {g : Graph ℚ} (hr : g.InRange) : (normalized g).InRange := by
+  intro i p hp
+  show p.1 < g.n
+  unfold normalized normRow at hp
+  simp only at hp
+  split at hp
+  · simp only [List.mem_map] at hp
+    obtain ⟨q, hq, rfl⟩ := hp
+    exact hr i q hq
+  · simp at hp
+
+theorem normalized_nonneg {g : Graph ℚ} (hg : g.Nonneg) : (normalized g).Nonneg := by
+  intro i p hp
+  unfold normalized normRow at hp
+  simp only at hp
+  split at hp
+  · rename_i h
+    simp only [List.mem_map] at hp
+    obtain ⟨q, hq, rfl⟩ := hp
+    exact mul_nonneg (div_nonneg zero_le_one (le_of_lt h)) (hg i q hq)
+  · simp at hp
+
+theorem sum_map_mul_left (c : ℚ) (l : List ℚ) : (l.map fun x => c * x).sum = c * l.sum := by
+  induction l with
+  | nil => simp
+  | cons a t ih => simp [ih, mul_add]
+
+theorem entry_normalized (g : Graph ℚ) (i j : ℕ) : entry (normalized g) i j = trans g i j := by
+  unfold entry trans normalized normRow
+  simp only
+  split
+  · rw [List.filter_map, List.map_map]
+    have : ((fun p : ℕ × ℚ => p.2) ∘ fun p : ℕ × ℚ => (p.1, 1 / norm1 g i * p.2))
+        = fun p : ℕ × ℚ => 1 / norm1 g i * p.2 := rfl
+    rw [this]
+    have h2 : ((fun p : ℕ × ℚ => p.1 == j) ∘ fun p : ℕ × ℚ => (p.1, 1 / norm1 g i * p.2))
+        = fun p : ℕ × ℚ => p.1 == j := rfl
+    rw [h2, show (fun p : ℕ × ℚ => 1 / norm1 g i * p.2) = (fun x => 1 / norm1 g i * x) ∘ (fun p : ℕ × ℚ => p.2) from rfl,
+      ← List.map_map, sum_map_mul_left]
+    rfl
+  · simp
+
+theorem rowSum_normalized {g : Graph ℚ} (hg : g.Nonneg) (i : ℕ) (h : 0 < norm1 g i) : rowSum (normalized g) i = 1 := by
+  unfold rowSum normalized normRow
+  simp only [h, if_true, List.map_map]
+  have : ((fun p : ℕ × ℚ => p.2) ∘ fun p : ℕ × ℚ => (p.1, 1 / norm1 g i * p.2))
+      = fun p : ℕ × ℚ => 1 / norm1 g i * p.2 := rfl
+  rw [this]
+  have h3 : ((g.row i).map fun p : ℕ × ℚ => 1 / norm1 g i * p.2)
+      = ((g.row i).map fun p : ℕ × ℚ => p.2).map fun x => 1 / norm1 g i * x := by rw [List.map_map]; rfl
+  rw [h3, sum_map_mul_left]
+  have : ((g.row i).map fun p => p.2).sum = norm1 g i := by
+    rw [norm1_eq_rowSum hg]; rfl
+  rw [this, one_div, inv_mul_cancel₀ (ne_of_gt h)]
+
+theorem normalized_rowStoch {g : Graph ℚ} (hg : g.Nonneg) : (normalized g).RowStoch := by
+  intro k hk
+  by_cases h : 0 < norm1 g k
+  · exact rowSum_normalized hg k h
+  · exfalso; apply hk
+    show normRow g k = []
+    unfold normRow; simp [h]
+
+theorem normalized_subStoch {g : Graph ℚ} (hg : g.Nonneg) (hr : g.InRange) :
+    SubStoch (normalized g).n (entry (normalized g)) := by
+  have : entry (normalized g) = trans g := by funext i j; exact entry_normalized g i j
+  rw [this]; exact trans_subStoch hg hr
+
+/-- distance of a normalised non-negative `u` to `π` from its distance to a positive multiple `t·π` -/
+theorem close_of_scaled {n : ℕ} {π : ℕ → ℚ} (hπ1 : ∑ i ∈ range n, π i = 1) (u : ℕ → ℚ) (hu : ∀ i, i < n → 0 ≤ u i)
+    (hsu : 0 < ∑ i ∈ range n, u i) (t : ℚ) (ht : 0 < t) (E : ℚ) (hE : ∑ i ∈ range n, |u i - t * π i| ≤ E) :
+    ∑ i ∈ range n, |u i / (∑ k ∈ range n, u k) - π i| ≤ 2 * E / t := by
+  have hsz : ∑ i ∈ range n, t * π i = t := by rw [← mul_sum, hπ1, mul_one]
+  have hnc := normalize_close u (fun i => t * π i) hu hsu (by rw [hsz]; exact ht)
+  have e : ∀ i ∈ range n, |u i / (∑ k ∈ range n, u k) - π i|
+      = |u i / (∑ k ∈ range n, u k) - (fun i => t * π i) i / (∑ k ∈ range n, (fun i => t * π i) k)| := by
+    intro i _
+    simp only [hsz]
+    rw [mul_div_cancel_left₀ _ (ne_of_gt ht)]
+  rw [sum_congr rfl e]
+  refine hnc.trans ?_
+  simp only [hsz]
+  have : 2 * (∑ i ∈ range n, |u i - t * π i|) ≤ 2 * E := by linarith
+  exact div_le_div_of_nonneg_right this (le_of_lt ht)
+
+/-- ★ `diteration_error` : `solver='diteration'` with `n_iter = K ≥ 1` is within `2·max(tol, a^K)/(1−a)` (ℓ1) of the
+    PageRank vector: the loop stops with `residu < tol·(1−a)` or after `K` sweeps with `residu ≤ a^K (1−a)` -/
+theorem diteration_close {g : Graph ℚ} (hg : g.Nonneg) (hr : g.InRange) {a : ℚ} (ha : 0 ≤ a) (ha1 : a < 1)
+    (y : List ℚ) (hy0 : ∀ i, 0 ≤ vec y i) (hy1 : ∑ i ∈ range g.n, vec y i = 1)
+    {π : ℕ → ℚ} {c : ℚ} (hπ : IsPR g.n (trans g) a (vec y) π c) (tol : ℚ) (K : ℕ) (hK : 0 < K) :
+    ∑ i ∈ range g.n, |(diteration g a y K tol).getD i 0 - π i| ≤ 2 * max tol (a ^ K) / (1 - a) := by
+  have h1a : 0 < 1 - a := by linarith
+  have hP := trans_subStoch hg hr
+  have hc : 0 < c := lt_of_lt_of_le h1a (hπ.const_ge hP ha hy1)
+  have hc1 : c ≤ 1 := hπ.const_le hP ha hy1
+  have hPn : SubStoch g.n (entry (normalized g)) := normalized_subStoch hg hr
+  -- initial state
+  let st0 : DState ℚ := { scores := tab g.n fun _ => 0, fluid := smul g.n (1 - a) y, residu := 1 - a }
+  have hfl : ∀ i, st0.fluid.getD i 0 = if i < g.n then (1 - a) * vec y i else 0 := by
+    intro i; show (smul g.n (1 - a) y).getD i 0 = _; unfold smul; rw [tab_getD]; rfl
+  have hI0 : DInv (normalized g) a (fun i => (1 - a) * vec y i) st0 := by
+    refine ⟨by show (tab g.n fun _ => (0 : ℚ)).length = g.n; simp,
+      by show (smul g.n (1 - a) y).length = g.n; simp [smul], fun i hi => ?_⟩
+    have hi : i < g.n := hi
+    have hz : PT g.n (entry (normalized g)) (fun j => st0.scores.getD j 0) i = 0 := by
+      unfold PT; apply sum_eq_zero; intro j _
+      show entry (normalized g) j i * (tab g.n fun _ => (0 : ℚ)).getD j 0 = 0
+      rw [tab_getD]; simp
+    show st0.scores.getD i 0 - a * PT g.n (entry (normalized g)) (fun j => st0.scores.getD j 0) i
+      + st0.fluid.getD i 0 = (1 - a) * vec y i
+    rw [hz, hfl, if_pos hi]
+    show (tab g.n fun _ => (0 : ℚ)).getD i 0 - a * 0 + _ = _
+    rw [tab_getD, if_pos hi]; ring
+  have hM0 : DMass (normalized g) st0 := by
+    refine ⟨fun i => ?_, fun i => ?_, ?_⟩
+    · rw [hfl]; split
+      · exact mul_nonneg (le_of_lt h1a) (hy0 i)
+      · exact le_refl _
+    · show 0 ≤ (tab g.n fun _ => (0 : ℚ)).getD i 0
+      rw [tab_getD]; split <;> exact le_refl _
+    · show 1 - a = ∑ i ∈ range g.n, st0.fluid.getD i 0
+      rw [sum_congr rfl fun i hi => by rw [hfl, if_pos (mem_range.mp hi)], ← mul_sum, hy1, mul_one]
+  obtain ⟨hI, hM, hor, hmono⟩ := diterLoop_budget (normalized_nonneg hg) (normalized_inRange hr)
+    (normalized_rowStoch hg) hPn ha (le_of_lt ha1) tol K hI0 hM0
+  set out := diterLoop (normalized g) a (1 - a) tol K st0 with hout
+  have hscores : diterScores g a y K tol = out.scores := rfl
+  -- the scaled PageRank vector solves the kernel's system
+  set t := (1 - a) / c with ht
+  have htpos : 0 < t := div_pos h1a hc
+  have hv : ∀ i, i < g.n → (fun j => t * π j) i - a * PT g.n (entry (normalized g)) (fun j => t * π j) i
+      = (fun i => (1 - a) * vec y i) i := by
+    intro i hi
+    have e : PT g.n (entry (normalized g)) (fun j => t * π j) i = t * PT g.n (trans g) π i := by
+      unfold PT
+      rw [mul_sum]
+      apply sum_congr rfl; intro j _
+      rw [entry_normalized]; ring
+    simp only [e]
+    have := hπ.eq i hi
+    have hc' : c ≠ 0 := ne_of_gt hc
+    rw [ht]
+    field_simp
+    linarith
+  have hres := diffusion_residual hPn ha hI hM (fun j => t * π j) hv
+  have hres0 : 0 ≤ out.residu := by rw [hM.mass]; exact sum_nonneg fun i _ => hM.nonnegF i
+  have hresK : out.residu ≤ a * (1 - a) := hmono hK
+  -- Σ scores > 0
+  have hSpos : 0 < ∑ i ∈ range g.n, out.scores.getD i 0 := by
+    have hsumI : ∑ i ∈ range g.n, (out.scores.getD i 0
+        - a * PT g.n (entry (normalized g)) (fun j => out.scores.getD j 0) i + out.fluid.getD i 0)
+        = ∑ i ∈ range g.n, (1 - a) * vec y i := sum_congr rfl fun i hi => hI.eq i (mem_range.mp hi)
+    have hmass : out.residu = ∑ i ∈ range g.n, out.fluid.getD i 0 := hM.mass
+    rw [sum_add_distrib, sum_sub_distrib, ← mul_sum, ← mul_sum, hy1, mul_one, ← hmass] at hsumI
+    have hPT0 : 0 ≤ ∑ i ∈ range g.n, PT g.n (entry (normalized g)) (fun j => out.scores.getD j 0) i :=
+      sum_nonneg fun i _ => PT_nonneg hPn (fun j _ => hM.nonnegS j) i
+    have := mul_nonneg ha hPT0
+    have : a * (1 - a) < 1 - a := by nlinarith
+    linarith
+  -- assemble
+  have houtv : ∀ i, i < g.n → (diteration g a y K tol).getD i 0
+      = out.scores.getD i 0 / ∑ k ∈ range g.n, out.scores.getD k 0 := by
+    intro i hi
+    unfold diteration
+    rw [normalizeV_getD, if_pos hi, hscores, list_sum_eq, hI.lenS]
+    rfl
+  rw [sum_congr rfl fun i hi => by rw [houtv i (mem_range.mp hi)]]
+  have hE : ∑ i ∈ range g.n, |out.scores.getD i 0 - t * π i| ≤ out.residu / (1 - a) := by
+    rw [le_div_iff₀ h1a, mul_comm]
+    have : ∑ i ∈ range g.n, |out.scores.getD i 0 - t * π i| = ∑ i ∈ range g.n, |(fun j => t * π j) i - out.scores.getD i 0| :=
+      sum_congr rfl fun i _ => abs_sub_comm _ _
+    rw [this]; exact hres
+  have hcl := close_of_scaled hπ.sum_one (fun i => out.scores.getD i 0) (fun i _ => hM.nonnegS i) hSpos t htpos _ hE
+  refine hcl.trans ?_
+  -- 2 (residu/(1−a)) / t = 2 residu c / (1−a)² ≤ 2 max(tol, a^K) / (1−a)
+  have hbound : out.residu ≤ max tol (a ^ K) * (1 - a) := by
+    rcases hor with h | h
+    · exact le_of_lt (lt_of_lt_of_le h (mul_le_mul_of_nonneg_right (le_max_left _ _) (le_of_lt h1a)))
+    · exact h.trans (mul_le_mul_of_nonneg_right (le_max_right _ _) (le_of_lt h1a))
+  have hmax0 : 0 ≤ max tol (a ^ K) := le_max_of_le_right (pow_nonneg ha K)
+  rw [ht]
+  have e2 : 2 * (out.residu / (1 - a)) / ((1 - a) / c) = 2 * out.residu * c / ((1 - a) * (1 - a)) := by
+    field_simp
+  rw [e2, div_le_div_iff₀ (mul_pos h1a h1a) h1a]
+  have h3 : 2 * out.residu * c ≤ 2 * (max tol (a ^ K) * (1 - a)) * 1 := by
+    have : out.residu * c ≤ max tol (a ^ K) * (1 - a) * 1 :=
+      mul_le_mul hbound hc1 (le_of_lt hc) (mul_nonneg hmax0 (le_of_lt h1a))
+    linarith
+  nlinarith
 
 end SkNet.Rank
